@@ -119,15 +119,12 @@ Qed.
 
 (* the assembled Laplace hypersingular matrix (regular ++ singular) annihilates the constant vector when every
    local trial dof is a real dof with multiplier 1 (whole closed grid) *)
-Definition lap_hyp_dense (g : geom) (st ss : space) quad (kr ks : @kernel A) Et Es pairs :=
-  lap_hyp_regular RO g g st ss quad kr true Et Es ++ lap_hyp_singular RO g st ss ks pairs.
-
 Theorem lap_hyp_annihilates_constants :
   forall (g : geom) (st ss : space) quad kr ks Et Es pairs n I,
   s_nshape ss = 3%nat ->
   (forall f j, (j < 3)%nat -> s_mult ss f j = r1) ->
   (forall f j, (j < 3)%nat -> (s_l2g ss f j < n)%nat) ->
-  sumN n (fun J => ent I J (lap_hyp_dense g st ss quad kr ks Et Es pairs) * r1) = r0.
+  sumN n (fun J => ent I J (lap_hyp_dense RO g st ss quad kr ks Et Es pairs) * r1) = r0.
 Proof.
   intros g st ss quad kr ks Et Es pairs n I Hns Hm Hl. unfold lap_hyp_dense.
   rewrite (sumN_ext n _ (fun J =>
@@ -257,5 +254,3 @@ Qed.
 End Symmetric.
 
 End Kernel0.
-
-Arguments lap_hyp_dense {A} RO.
